@@ -23,3 +23,8 @@ def run(repo, res, tier):
     from .. import hookrules as _hk4
     _hk4.rule_h4(repo, res)
     _hk4.rule_h5(repo, res)
+    # group_class and object_class are told apart by the begin keyword: a keyword listed for both kinds in a grammar
+    # hands objects to the group hook (TB5); the derived table must cover both (TB1)
+    from .. import tablerules
+    tablerules.rule_tb1(repo, res)
+    tablerules.rule_tb5(repo, res)
